@@ -120,6 +120,7 @@ func notedownSrc(dir string, fileName string, src []byte) {
 	// rename tmpfile to output file
 	err = os.Rename(tmpFile.Name(), filepath.Join(dir, fileName))
 	if err != nil {
+		os.Remove(tmpFile.Name())
 		logx.Fatalf("moving tempfile to output file: %s", err)
 	}
 }
